@@ -3,8 +3,8 @@
     consist of), get from [DavServer.serve] the answers and leave the subtrees they
     get alone. *)
 From Coq Require Import PeanoNat Lia.
-From GW Require Import Base GoPath Fs DavServer FsProofs UploadSteps UploadStepsProofs CopySteps CopyStepsProofs
-  SortedProofs RelocProofs ConcServe.
+From GW Require Import Base GoPath Fs DavServer Rfc4918 FsProofs DavRefine UploadSteps UploadStepsProofs CopySteps CopyStepsProofs
+  SortedProofs RelocProofs CopyTempProofs ConcServe.
 Local Open Scope list_scope.
 
 (** * 1. The generic theorem *)
@@ -751,7 +751,7 @@ Section ServeLevel.
   Qed.
 End ServeLevel.
 
-(** * 4. A COPY as the sequence of its OS calls *)
+(** * 4. A COPY as the sequence of its OS calls (through a temporary name) *)
 
 Lemma nonempty_below_app c ds x : nonempty_below c ds = true -> nonempty_below c (ds ++ x) = true.
 Proof.
@@ -760,131 +760,393 @@ Proof.
   destruct q; [congruence|reflexivity].
 Qed.
 
-Lemma copy_steps_owned colls i c ds st fin :
-  nth_error colls i = Some c -> nonempty_below c ds = true ->
-  forall es, cowned colls response i (copy_steps ds st es fin).
+(** the temporary name lives in the destination's parent: below the client's collection
+    because the destination is STRICTLY below it *)
+Lemma nonempty_below_tmp c ds tmp : nonempty_below c ds = true -> nonempty_below c (parent ds ++ [tmp]) = true.
 Proof.
-  intros N B. induction es as [|e es IH]; cbn; [exact I|].
-  split; [exists c; split; [exact N|]; cbn [owns]; apply nonempty_below_app; exact B|].
-  intros [| |[|]|]; cbn; auto.
+  intro H. destruct (nonempty_below_spec _ _ H) as (q & -> & Hq).
+  rewrite parent_below by exact Hq. unfold nonempty_below. rewrite <- app_assoc. rewrite strip_prefix_app.
+  destruct (parent q); reflexivity.
 Qed.
 
-(** every OS call of the COPY belongs to the client, whatever the calls return *)
-Lemma copy_prog_owned colls i c r dst rec ow qs qd :
-  nth_error colls i = Some c ->
-  segs_under c (rpath r) = Some qs -> segs_under c dst = Some qd ->
-  cowned colls response i (copy_prog c r dst rec ow).
-Proof.
-  intros N E1 E2. cbn. split.
-  - exists c. split; [exact N|]. cbn [owns]. rewrite E1, E2. reflexivity.
-  - intros [| | |[[[[ss n] ds] cr]|e]]; cbn; auto.
-    destruct (nonempty_below c ds) eqn:B; cbn; auto.
-    split; [exists c; split; [exact N|exact B]|]. intros _. apply (copy_steps_owned colls i c); auto.
-Qed.
+Lemma nonempty_below_prefix c p : nonempty_below c p = true -> is_prefix c p = true.
+Proof. intro H. destruct (nonempty_below_spec _ _ H) as (q & -> & _). apply is_prefix_app. Qed.
 
-Lemma copy_entries_exec root ds st fin : forall es s' t,
-  copy_entries s' (hp root ds) st es = Some t ->
-  exec_prog root (copy_steps ds st es fin) s' = (Some t, fin).
+Section CopyOwned.
+  Variables (colls : list path) (i : nat) (c : path).
+  Hypothesis N : nth_error colls i = Some c.
+
+  Lemma copy_abort_owned tmpp : nonempty_below c tmpp = true -> cowned colls response i (copy_abort tmpp).
+  Proof. intro B. cbn. split; [exists c; auto|]. intros _. exact I. Qed.
+
+  Lemma copy_steps_owned tmpp st fin :
+    nonempty_below c tmpp = true -> cowned colls response i fin ->
+    forall es k, cowned colls response i (copy_steps tmpp st es k fin).
+  Proof.
+    intros B F. induction es as [|e es IH]; intro k; cbn [copy_steps]; [exact F|].
+    assert (STEP : cowned colls response i
+              (TCall (ASet (tmpp ++ fst e) (copy_shallow st (snd e)))
+                 (fun b => match b with
+                           | RDone true => copy_steps tmpp st es (option_map pred k) fin
+                           | _ => copy_abort tmpp
+                           end))).
+    { cbn. split; [exists c; split; [exact N|]; cbn [owns]; apply nonempty_below_app; exact B|].
+      intros [| |[|]|]; try apply (copy_abort_owned tmpp B). apply IH. }
+    destruct k as [[|k]|]; [apply (copy_abort_owned tmpp B)|exact STEP|exact STEP].
+  Qed.
+
+  Lemma copy_finish_owned ds tmpp cr :
+    nonempty_below c ds = true -> nonempty_below c tmpp = true ->
+    cowned colls response i (copy_finish ds tmpp cr).
+  Proof.
+    intros D B.
+    assert (R : cowned colls response i
+              (TCall (AGet tmpp) (fun b =>
+                 match b with
+                 | RNode (Some t) =>
+                   TCall (ARem tmpp) (fun _ => TCall (ASet ds t) (fun b2 =>
+                     match b2 with RDone true => TRet (created_resp cr) | _ => TRet fail500 end))
+                 | _ => TRet fail500
+                 end))).
+    { cbn. split; [exists c; split; [exact N|]; cbn [owns]; apply nonempty_below_prefix; exact B|].
+      intros [|[t|]| |]; cbn; auto.
+      split; [exists c; auto|]. intros _. split; [exists c; auto|]. intros [| |[|]|]; cbn; auto. }
+    unfold copy_finish. destruct cr; [exact R|].
+    cbn. split; [exists c; auto|]. intros _. exact R.
+  Qed.
+
+  (** every OS call of the COPY belongs to the client — whatever the calls return, with or
+      without a fault — PROVIDED both paths of the request are at or below its collection:
+      the checks then only pass for a destination strictly below it, so that the
+      temporary name, a sibling of the destination, is below it too *)
+  Lemma copy_prog_owned tmp k r dst rec ow qs qd :
+    segs_under c (rpath r) = Some qs -> segs_under c dst = Some qd ->
+    cowned colls response i (copy_prog c tmp k r dst rec ow).
+  Proof.
+    intros E1 E2. cbn. split.
+    - exists c. split; [exact N|]. cbn [owns]. rewrite E1, E2. reflexivity.
+    - intros [| | |[[[[ss n] ds] cr]|e]]; cbn; auto.
+      destruct (nonempty_below c ds) eqn:B; cbn; auto.
+      pose proof (nonempty_below_tmp c ds tmp B) as BT.
+      split; [exists c; auto|]. intros [| |[|]|]; cbn; auto.
+      split; [exists c; auto|]. intros _.
+      apply copy_steps_owned; auto. apply copy_finish_owned; auto.
+  Qed.
+End CopyOwned.
+
+(** ** Run alone *)
+Lemma copy_steps_exec_ok root tmpp st fin : forall es s s1,
+  copy_entries s (root ++ tmpp) st es = Some s1 ->
+  exec_prog root (copy_steps tmpp st es None fin) s = exec_prog root fin (Some s1).
 Proof.
-  induction es as [|e es IH]; intros s' t H.
-  - cbn in *. subst s'. reflexivity.
+  induction es as [|e es IH]; intros s s1 H.
+  - cbn in H. subst s. reflexivity.
   - cbn [copy_entries] in H. unfold copy_entry in H.
-    destruct (seto s' (hp root ds ++ fst e) (copy_shallow st (snd e))) as [s''|] eqn:E; [|discriminate].
-    cbn [copy_steps exec_prog act_step]. unfold hp in E. rewrite <- app_assoc in E. rewrite E. cbn [fst snd].
+    destruct (seto s ((root ++ tmpp) ++ fst e) (copy_shallow st (snd e))) as [s'|] eqn:E; [|discriminate].
+    cbn [copy_steps exec_prog act_step]. rewrite <- app_assoc in E. rewrite E. cbn [fst snd option_map].
     apply IH. exact H.
 Qed.
 
-(** the destination is ready for the walk (the argument inside CopyStepsProofs.copy_is_walk) *)
-Lemma copy_ready root sb r dst (rec : bool) ow ss n ds cr :
-  sorted_otree sb = true ->
-  copy_move_checks root sb (rpath r) dst ow = GOk (ss, n, ds, cr) ->
-  exists t,
-    seto (remo sb (hp root ds)) (hp root ds) (if rec then copy_tree (stamp r) n else copy_shallow (stamp r) n) = Some t /\
-    copy_walk (remo sb (hp root ds)) (hp root ds) (stamp r) n rec = Some t.
+Lemma copy_steps_exec_fail root tmpp st fin : forall es k s s1,
+  k < List.length es -> copy_entries s (root ++ tmpp) st (firstn k es) = Some s1 ->
+  exec_prog root (copy_steps tmpp st es (Some k) fin) s = (remo (Some s1) (root ++ tmpp), fail500).
 Proof.
-  intros Hsb Hchk.
-  pose proof (checks_sorted root sb _ _ _ _ _ _ _ Hsb Hchk) as Hs.
-  assert (Hpar : is_dir (geto sb (hp root (parent ds))) = true /\ ds <> []).
-  { unfold copy_move_checks in Hchk.
-    destruct (segs_of (rpath r)) as [ss0|]; [|discriminate].
-    destruct (segs_of dst) as [ds0|]; [|discriminate].
-    destruct (is_prefix ss0 ds0 || is_prefix ds0 ss0) eqn:Epre; [discriminate|].
-    destruct (geto sb (hp root ss0)); [|discriminate].
-    destruct (is_dir (geto sb (hp root (parent ds0)))) eqn:Ed; cbn [negb] in Hchk; [|discriminate].
-    assert (ds0 = ds) by (destruct (exists_ (geto sb (hp root ds0))); [destruct ow|]; inversion Hchk; reflexivity).
-    subst ds0. split; [exact Ed|].
-    intros ->. destruct ss0; cbn in Epre; discriminate. }
-  destruct Hpar as [Hpar Hne].
-  assert (Hne' : hp root ds <> []) by (unfold hp; destruct ds; [congruence|]; destruct root; discriminate).
-  assert (Hd : is_dir (geto (remo sb (hp root ds)) (removelast (hp root ds))) = true).
-  { rewrite !is_dir_kind, abs_remo.
-    assert (Hrl : removelast (hp root ds) = hp root (parent ds)).
-    { unfold hp, parent. apply removelast_app. exact Hne. }
-    rewrite Hrl.
-    assert (Hnp : is_prefix (hp root ds) (hp root (parent ds)) = false).
-    { unfold hp. rewrite is_prefix_app_l.
-      destruct (is_prefix ds (parent ds)) eqn:E; [|reflexivity]. exfalso.
-      apply is_prefix_spec in E. destruct E as [suf E].
-      assert (Hl : List.length (parent ds) = List.length (ds ++ suf)) by (rewrite <- E; reflexivity).
-      unfold parent in Hl. rewrite app_length in Hl.
-      rewrite (app_removelast_last ""%string Hne) in Hl at 2. rewrite app_length in Hl. cbn in Hl. lia. }
-    rewrite Hnp. rewrite <- is_dir_kind. exact Hpar. }
-  destruct (seto_ok (hp root ds) (remo sb (hp root ds))
-              (if rec then copy_tree (stamp r) n else copy_shallow (stamp r) n) Hne' Hd) as [t Ht].
-  exists t. split; [exact Ht|]. rewrite <- Ht. destruct rec.
-  - apply copy_walk_is_copy_tree; auto. apply geto_remo_self. exact Hne'.
-  - apply copy_walk_shallow.
+  induction es as [|e es IH]; intros k s s1 L H; [cbn in L; lia|].
+  destruct k as [|k].
+  - cbn in H. subst s. reflexivity.
+  - cbn [firstn copy_entries] in H. unfold copy_entry in H.
+    destruct (seto s ((root ++ tmpp) ++ fst e) (copy_shallow st (snd e))) as [s'|] eqn:E; [|discriminate].
+    cbn [copy_steps exec_prog act_step]. rewrite <- app_assoc in E. rewrite E. cbn [fst snd option_map pred].
+    apply IH; [cbn in L; lia | exact H].
 Qed.
 
-(** Run alone on a sandbox with sorted listings, the OS-call program of a COPY ends in
-    the state, and with the response, of the one step [do_copy] of [DavServer.serve]. *)
-Theorem copy_prog_is_do_copy root c sb r dst rec ow qs qd :
-  sorted_otree sb = true ->
-  segs_under c (rpath r) = Some qs -> segs_under c dst = Some qd ->
-  exec_prog root (copy_prog c r dst rec ow) sb = do_copy root sb r dst rec ow.
+Lemma checks_created root sb src dst ow ss n ds cr :
+  copy_move_checks root sb src dst ow = GOk (ss, n, ds, cr) ->
+  cr = negb (exists_ (geto sb (hp root ds))).
 Proof.
-  intros Hsb E1 E2. apply segs_under_spec in E1. apply segs_under_spec in E2.
-  unfold copy_prog, do_copy. cbn [exec_prog act_step fst snd].
-  destruct (copy_move_checks root sb (rpath r) dst ow) as [[[[ss n] ds] cr]|e] eqn:Ec; [|reflexivity].
+  unfold copy_move_checks.
+  destruct (segs_of src) as [ss0|]; [|discriminate].
+  destruct (segs_of dst) as [ds0|]; [|discriminate].
+  destruct (is_prefix ss0 ds0 || is_prefix ds0 ss0); [discriminate|].
+  destruct (geto sb (hp root ss0)); [|discriminate].
+  destruct (negb (is_dir (geto sb (hp root (parent ds0))))); [discriminate|].
+  destruct (exists_ (geto sb (hp root ds0))) eqn:Ex; [destruct ow|]; intro H; inversion H; subst;
+    rewrite Ex; reflexivity.
+Qed.
+
+Section CopyTmp.
+  Variables (root : path) (sb : option node) (r : request) (dst : string) (rec ow : bool).
+  Variables (ss : path) (n : node) (ds : path) (cr : bool) (tmp : string).
+  Hypothesis Hchk : copy_move_checks root sb (rpath r) dst ow = GOk (ss, n, ds, cr).
+  Hypothesis Hsorted : sorted_tree n = true.
+  Hypothesis Hfresh : geto sb (hp root (parent ds) ++ [tmp]) = None.
+  Hypothesis Hneq : tmp <> last ds ""%string.
+
+  Let dsA := hp root ds.
+  Let tmpA := hp root (parent ds) ++ [tmp].
+  Let T := if rec then copy_tree (stamp r) n else copy_shallow (stamp r) n.
+
+  Lemma tmp_act_path : root ++ parent ds ++ [tmp] = tmpA.
+  Proof. unfold tmpA, hp. apply app_assoc. Qed.
+
+  Lemma ct_facts :
+    is_dir (geto sb (hp root (parent ds))) = true /\ ds <> [] /\ dsA <> [] /\ tmpA <> [] /\
+    removelast tmpA = hp root (parent ds) /\ removelast dsA = hp root (parent ds) /\
+    is_prefix tmpA dsA = false /\ is_prefix dsA tmpA = false.
+  Proof.
+    assert (Hpar : is_dir (geto sb (hp root (parent ds))) = true /\ ds <> []).
+    { unfold copy_move_checks in Hchk.
+      destruct (segs_of (rpath r)) as [ss0|]; [|discriminate].
+      destruct (segs_of dst) as [ds0|]; [|discriminate].
+      destruct (is_prefix ss0 ds0 || is_prefix ds0 ss0) eqn:Epre; [discriminate|].
+      destruct (geto sb (hp root ss0)); [|discriminate].
+      destruct (is_dir (geto sb (hp root (parent ds0)))) eqn:Ed; cbn [negb] in Hchk; [|discriminate].
+      assert (ds0 = ds) by (destruct (exists_ (geto sb (hp root ds0))); [destruct ow|]; inversion Hchk; reflexivity).
+      subst ds0. split; [exact Ed|].
+      intros ->. destruct ss0; cbn in Epre; discriminate. }
+    destruct Hpar as [Hpar Hne].
+    assert (Hd : dsA = hp root (parent ds) ++ [last ds ""%string]) by (apply hp_parent_last; exact Hne).
+    assert (Hdne : dsA <> []) by (rewrite Hd; destruct (hp root (parent ds)); discriminate).
+    assert (Htne : tmpA <> []) by (unfold tmpA; destruct (hp root (parent ds)); discriminate).
+    assert (R1 : removelast tmpA = hp root (parent ds)) by (unfold tmpA; apply removelast_last).
+    assert (R2 : removelast dsA = hp root (parent ds)) by (rewrite Hd; apply removelast_last).
+    assert (Hneqp : tmpA <> dsA).
+    { unfold tmpA. rewrite Hd. intros E. apply app_inv_head in E. inversion E. congruence. }
+    assert (Hlen : List.length tmpA = List.length dsA).
+    { unfold tmpA. rewrite Hd, !app_length. reflexivity. }
+    assert (Hnp : forall a b : path, List.length a = List.length b -> a <> b -> is_prefix a b = false).
+    { intros a b Hl Hab. destruct (is_prefix a b) eqn:E; [|reflexivity]. exfalso.
+      apply is_prefix_spec in E. destruct E as [suf E]. subst b. rewrite app_length in Hl.
+      destruct suf; [rewrite app_nil_r in Hab; congruence|cbn in Hl; lia]. }
+    repeat split; auto.
+  Qed.
+
+  (** the walk into the temporary name succeeds and maps the copied tree there *)
+  Lemma ct_walk : exists s1,
+    copy_entries sb tmpA (stamp r) (walk_entries n rec) = Some s1 /\ seto sb tmpA T = Some s1.
+  Proof.
+    destruct ct_facts as (Hpar & Hne & Hdne & Htne & R1 & R2 & Htd & Hdt).
+    assert (Hwalk : copy_entries sb tmpA (stamp r) (walk_entries n rec) = seto sb tmpA T).
+    { unfold T, walk_entries. destruct rec.
+      - apply (copy_walk_is_copy_tree sb tmpA (stamp r) n Hsorted Htne Hfresh). rewrite R1. exact Hpar.
+      - apply (copy_walk_shallow sb tmpA (stamp r) n). }
+    destruct (seto_ok tmpA sb T Htne) as [s1 Hs1]; [rewrite R1; exact Hpar|].
+    exists s1. rewrite Hwalk. auto.
+  Qed.
+
+  (** reserving the name (createTemp, Remove) changes nothing *)
+  Lemma ct_reserve : exists t0,
+    seto sb tmpA (File "" (stamp r)) = Some t0 /\ remo (Some t0) tmpA = sb.
+  Proof.
+    destruct ct_facts as (Hpar & Hne & Hdne & Htne & R1 & R2 & Htd & Hdt).
+    destruct (seto_ok tmpA sb (File "" (stamp r)) Htne) as [t0 Ht0]; [rewrite R1; exact Hpar|].
+    exists t0. split; [exact Ht0|]. apply (remo_seto_fresh tmpA sb _ t0 Htne Hfresh Ht0).
+  Qed.
+
+  Variable c : path.
+  Hypothesis Hbelow : nonempty_below c ds = true.
+
+  Lemma copy_prog_unfold k :
+    exec_prog root (copy_prog c tmp k r dst rec ow) sb =
+    exec_prog root (copy_steps (parent ds ++ [tmp]) (stamp r) (walk_entries n rec) k
+                      (copy_finish ds (parent ds ++ [tmp]) cr)) sb.
+  Proof.
+    unfold copy_prog. cbn [exec_prog act_step fst snd]. rewrite Hchk, Hbelow.
+    cbn [exec_prog act_step]. rewrite tmp_act_path.
+    destruct ct_reserve as (t0 & Ht0 & Hr). rewrite Ht0. cbn [fst snd exec_prog act_step].
+    rewrite tmp_act_path, Hr. reflexivity.
+  Qed.
+
+  (** A COPY in which the creation of entry number [k] of the walk fails: 500, and the
+      sandbox is the very one it started from (CopyTempProofs.copy_fault_restores). *)
+  Theorem copy_fault_alone k :
+    k < List.length (walk_entries n rec) ->
+    exec_prog root (copy_prog c tmp (Some k) r dst rec ow) sb = (sb, fail500).
+  Proof.
+    intro L. rewrite copy_prog_unfold.
+    destruct ct_facts as (Hpar & Hne & Hdne & Htne & R1 & R2 & Htd & Hdt).
+    destruct ct_walk as (s1 & Hw & _).
+    (* the prefix of a successful walk succeeds *)
+    assert (PRE : exists sk, copy_entries sb tmpA (stamp r) (firstn k (walk_entries n rec)) = Some sk).
+    { destruct sb as [t|] eqn:Esb.
+      - rewrite <- (firstn_skipn k (walk_entries n rec)) in Hw. rewrite copy_entries_app in Hw.
+        destruct (copy_entries (Some t) tmpA (stamp r) (firstn k (walk_entries n rec))) as [sk|]; [eauto|discriminate].
+      - rewrite geto_None in Hpar. discriminate. }
+    destruct PRE as [sk Hk].
+    rewrite <- tmp_act_path in Hk.
+    rewrite (copy_steps_exec_fail root _ _ _ _ k sb sk L Hk). rewrite tmp_act_path.
+    pose proof (copy_fault_restores sb dsA tmpA (stamp r) n rec k Htne Hfresh) as [F _].
+    unfold copy_via_temp in F. apply Nat.ltb_lt in L. rewrite L in F.
+    unfold copy_entries_upto in F. rewrite <- tmp_act_path in F. rewrite Hk in F. cbn [fst] in F.
+    rewrite tmp_act_path in F. rewrite F. reflexivity.
+  Qed.
+
+  (** Without a fault: the response of the one step [do_copy], and at every path the
+      names, kinds and bytes of its state (CopyTempProofs.copy_is_copy_via_temp). *)
+  Theorem copy_ok_alone :
+    snd (exec_prog root (copy_prog c tmp None r dst rec ow) sb) = snd (do_copy root sb r dst rec ow) /\
+    forall q, abs (fst (exec_prog root (copy_prog c tmp None r dst rec ow) sb)) q =
+              abs (fst (do_copy root sb r dst rec ow)) q.
+  Proof.
+    rewrite copy_prog_unfold.
+    destruct ct_facts as (Hpar & Hne & Hdne & Htne & R1 & R2 & Htd & Hdt).
+    destruct (copy_is_copy_via_temp root sb r dst rec ow ss n ds cr tmp Hchk Hsorted Hfresh Hneq) as (s2 & H1 & H3).
+    fold tmpA dsA in H1.
+    destruct ct_walk as (s1 & Hw & Hs1).
+    unfold copy_via_temp in H1. rewrite Hw in H1.
+    destruct (geto (Some s1) tmpA) as [t|] eqn:Eg; [|discriminate].
+    destruct (seto (remo (remo (Some s1) dsA) tmpA) dsA t) as [s2'|] eqn:Es; [|discriminate].
+    inversion H1; subst s2'. clear H1.
+    rewrite <- tmp_act_path in Hw.
+    rewrite (copy_steps_exec_ok root _ _ _ _ sb s1 Hw).
+    (* the response of do_copy *)
+    assert (RESP : snd (do_copy root sb r dst rec ow) = created_resp cr).
+    { unfold do_copy. rewrite Hchk.
+      assert (Hpe : is_dir (geto (remo sb dsA) (removelast dsA)) = true).
+      { rewrite is_dir_remo_other by (apply (not_prefix_own_parent dsA Hdne)). rewrite R2. exact Hpar. }
+      destruct (seto_ok dsA (remo sb dsA) T Hdne Hpe) as [e He]. fold dsA. fold T. rewrite He. reflexivity. }
+    rewrite RESP.
+    (* removing an absent destination is a no-op *)
+    assert (ABS : cr = true -> remo (Some s1) dsA = Some s1).
+    { intro C. apply remo_absent. rewrite (geto_seto_other tmpA sb T s1 dsA Hs1 Htd Hdt).
+      pose proof (checks_created _ _ _ _ _ _ _ _ _ Hchk) as CC. rewrite C in CC.
+      fold dsA in CC. destruct (geto sb dsA); [discriminate|reflexivity]. }
+    assert (FIN : exec_prog root (copy_finish ds (parent ds ++ [tmp]) cr) (Some s1) = (Some s2, created_resp cr)).
+    { unfold copy_finish. destruct cr.
+      - cbn [exec_prog act_step fst snd]. rewrite tmp_act_path, Eg. cbn [exec_prog act_step fst snd].
+        rewrite tmp_act_path. rewrite (ABS eq_refl) in Es. fold (hp root ds). fold dsA. rewrite Es. reflexivity.
+      - cbn [exec_prog act_step fst snd]. fold (hp root ds). fold dsA. rewrite tmp_act_path.
+        rewrite (geto_remo_other dsA (Some s1) tmpA Hdt Htd), Eg. cbn [exec_prog act_step fst snd].
+        rewrite tmp_act_path. fold (hp root ds). fold dsA. rewrite Es. reflexivity. }
+    rewrite FIN. cbn [fst snd]. split; [reflexivity|exact H3].
+  Qed.
+End CopyTmp.
+
+(** ** The statements *)
+
+(** the temporary name is free next to the destination, and is not the destination's name *)
+Definition tmp_free (root : path) (sb : option node) (r : request) (dst : string) (ow : bool) (tmp : string) : Prop :=
+  forall ss n ds cr, copy_move_checks root sb (rpath r) dst ow = GOk (ss, n, ds, cr) ->
+    geto sb (hp root (parent ds) ++ [tmp]) = None /\ tmp <> last ds ""%string.
+
+Lemma checks_nonempty_below root c sb r dst ow qs qd ss n ds cr :
+  segs_under c (rpath r) = Some qs -> segs_under c dst = Some qd ->
+  copy_move_checks root sb (rpath r) dst ow = GOk (ss, n, ds, cr) -> nonempty_below c ds = true.
+Proof.
+  intros E1 E2 Ec. apply segs_under_spec in E1. apply segs_under_spec in E2.
   destruct (copy_move_checks_segs _ _ _ _ _ _ _ _ _ Ec) as [S1 S2].
   rewrite E2 in S2. inversion S2; subst ds.
-  assert (B : nonempty_below c (c ++ qd) = true).
-  { unfold nonempty_below. rewrite strip_prefix_app. destruct qd as [|x qd']; [|reflexivity]. exfalso.
-    unfold copy_move_checks in Ec. rewrite E1, E2, !is_prefix_app_l in Ec.
-    destruct (is_prefix qs [] || is_prefix [] qs) eqn:Epre; [discriminate|].
-    apply orb_false_iff in Epre. destruct Epre as [_ X]. discriminate. }
-  rewrite B. cbn [exec_prog act_step fst snd].
-  destruct (copy_ready root sb r dst rec ow _ _ _ _ Hsb Ec) as (t & T1 & T2).
-  rewrite T1. unfold copy_walk in T2.
-  fold (hp root (c ++ qd)). apply copy_entries_exec. exact T2.
+  unfold nonempty_below. rewrite strip_prefix_app. destruct qd as [|x qd']; [|reflexivity]. exfalso.
+  unfold copy_move_checks in Ec. rewrite E1, E2, !is_prefix_app_l in Ec.
+  destruct (is_prefix qs [] || is_prefix [] qs) eqn:Epre; [discriminate|].
+  apply orb_false_iff in Epre. destruct Epre as [_ X]. discriminate.
 Qed.
 
-(** A COPY that runs OS call by OS call among the steps of clients on disjoint
-    collections — interrupted between any two entries of its walk, for as long as the
-    scheduler likes — ends, once it has been given enough steps, with the response of
-    the one-step [do_copy] on the sandbox it started from, and its collection is what
-    [do_copy] makes of it. *)
-Theorem copy_interrupted root colls (PI : pairwise_incomparable colls = true)
-    (progs : list (tprog act result response)) s0 i c r dst rec ow qs qd :
-  cwf colls response (progs, s0) -> sorted_otree s0 = true ->
-  nth_error colls i = Some c -> nth_error progs i = Some (copy_prog c r dst rec ow) ->
+(** Run alone on a sandbox with sorted listings, with a free temporary name, the OS-call
+    program of a COPY ends with the response of the one step [do_copy] of
+    [DavServer.serve] and in a sandbox that has, at every path, the names, kinds and
+    bytes of [do_copy]'s (modification times and the order of insertion may differ:
+    the copy was built under another name and renamed). *)
+Theorem copy_prog_is_do_copy root c sb r dst rec ow tmp qs qd :
+  sorted_otree sb = true ->
   segs_under c (rpath r) = Some qs -> segs_under c dst = Some qd ->
-  view_ok (geto s0 (root ++ c)) = true ->
-  exists n, forall sched, n <= count_occ Nat.eq_dec sched i ->
-    let g := trun (act_step root) (progs, s0) sched in
-    nth_error (fst g) i = Some (TRet (snd (do_copy root s0 r dst rec ow))) /\
-    geto (snd g) (root ++ c) = geto (fst (do_copy root s0 r dst rec ow)) (root ++ c).
+  tmp_free root sb r dst ow tmp ->
+  snd (exec_prog root (copy_prog c tmp None r dst rec ow) sb) = snd (do_copy root sb r dst rec ow) /\
+  forall q, abs (fst (exec_prog root (copy_prog c tmp None r dst rec ow) sb)) q =
+            abs (fst (do_copy root sb r dst rec ow)) q.
 Proof.
-  intros W Hs NC NP E1 E2 K.
-  destruct (alone_exec root (copy_prog c r dst rec ow) progs s0 i NP) as [n Hn].
-  exists n. intros sched LE g.
-  assert (K' : cok (cview root colls i (snd (progs, s0)))) by (unfold cok, cview; cbn [snd]; rewrite NC; exact K).
-  destruct (clients_alone root colls response PI i sched (progs, s0) W K') as (A & B & _).
-  fold g in A, B. rewrite (Hn _ LE) in A, B. cbn [fst snd] in A, B.
-  rewrite (copy_prog_is_do_copy root c s0 r dst rec ow qs qd Hs E1 E2) in A, B.
-  rewrite (nth_upd_same _ _ _ _ NP) in A. split; [exact A|].
-  unfold cview in B. rewrite NC in B. exact B.
+  intros Hsb E1 E2 TF.
+  destruct (copy_move_checks root sb (rpath r) dst ow) as [[[[ss n] ds] cr]|e] eqn:Ec.
+  - destruct (TF _ _ _ _ Ec) as [F1 F2].
+    apply (copy_ok_alone root sb r dst rec ow ss n ds cr tmp Ec
+             (checks_sorted root sb _ _ _ _ _ _ _ Hsb Ec) F1 F2 c
+             (checks_nonempty_below root c sb r dst ow qs qd ss n ds cr E1 E2 Ec)).
+  - unfold copy_prog, do_copy. cbn [exec_prog act_step fst snd]. rewrite Ec. cbn. auto.
 Qed.
+
+(** C02 for the step-by-step COPY: whichever entry of the walk cannot be created, the
+    COPY answers 500 and the sandbox is the very one it started from. *)
+Theorem copy_fault_harmless_alone root c sb r dst rec ow tmp qs qd k ss n ds cr :
+  sorted_otree sb = true ->
+  segs_under c (rpath r) = Some qs -> segs_under c dst = Some qd ->
+  tmp_free root sb r dst ow tmp ->
+  copy_move_checks root sb (rpath r) dst ow = GOk (ss, n, ds, cr) ->
+  k < List.length (walk_entries n rec) ->
+  exec_prog root (copy_prog c tmp (Some k) r dst rec ow) sb = (sb, fail500).
+Proof.
+  intros Hsb E1 E2 TF Ec L. destruct (TF _ _ _ _ Ec) as [F1 F2].
+  apply (copy_fault_alone root sb r dst rec ow ss n ds cr tmp Ec
+           (checks_sorted root sb _ _ _ _ _ _ _ Hsb Ec) F1 F2 c
+           (checks_nonempty_below root c sb r dst ow qs qd ss n ds cr E1 E2 Ec) k L).
+Qed.
+
+Section CopyConcurrent.
+  Variables (root : path) (colls : list path).
+  Hypothesis PI : pairwise_incomparable colls = true.
+  Variables (progs : list (tprog act result response)) (s0 : option node) (i : nat) (c : path).
+  Variables (r : request) (dst : string) (rec ow : bool) (tmp : string) (qs qd : path).
+  Hypothesis W : cwf colls response (progs, s0).
+  Hypothesis Hs : sorted_otree s0 = true.
+  Hypothesis NC : nth_error colls i = Some c.
+  Hypothesis E1 : segs_under c (rpath r) = Some qs.
+  Hypothesis E2 : segs_under c dst = Some qd.
+  Hypothesis K : view_ok (geto s0 (root ++ c)) = true.
+  Hypothesis TF : tmp_free root s0 r dst ow tmp.
+
+  Lemma ran_alone k :
+    nth_error progs i = Some (copy_prog c tmp k r dst rec ow) ->
+    exists n, forall sched, n <= count_occ Nat.eq_dec sched i ->
+      let g := trun (act_step root) (progs, s0) sched in
+      nth_error (fst g) i = Some (TRet (snd (exec_prog root (copy_prog c tmp k r dst rec ow) s0))) /\
+      geto (snd g) (root ++ c) = geto (fst (exec_prog root (copy_prog c tmp k r dst rec ow) s0)) (root ++ c).
+  Proof.
+    intros NP. destruct (alone_exec root (copy_prog c tmp k r dst rec ow) progs s0 i NP) as [n Hn].
+    exists n. intros sched LE g.
+    assert (K' : cok (cview root colls i (snd (progs, s0)))) by (unfold cok, cview; cbn [snd]; rewrite NC; exact K).
+    destruct (clients_alone root colls response PI i sched (progs, s0) W K') as (A & B & _).
+    fold g in A, B. rewrite (Hn _ LE) in A, B. cbn [fst snd] in A, B.
+    rewrite (nth_upd_same _ _ _ _ NP) in A. split; [exact A|].
+    unfold cview in B. rewrite NC in B. exact B.
+  Qed.
+
+  (** A COPY that runs OS call by OS call among the steps of clients on disjoint
+      collections — interrupted between any two entries of its walk, before or after
+      the removal of the old destination, between the removal and the rename, for as
+      long as the scheduler likes — ends, once it has had enough steps, with the
+      response of the one-step [do_copy] on the sandbox it started from, and its
+      collection has at every path what [do_copy] makes of it. *)
+  Theorem copy_interrupted :
+    nth_error progs i = Some (copy_prog c tmp None r dst rec ow) ->
+    exists n, forall sched, n <= count_occ Nat.eq_dec sched i ->
+      let g := trun (act_step root) (progs, s0) sched in
+      nth_error (fst g) i = Some (TRet (snd (do_copy root s0 r dst rec ow))) /\
+      forall q, abs (snd g) (root ++ c ++ q) = abs (fst (do_copy root s0 r dst rec ow)) (root ++ c ++ q).
+  Proof.
+    intros NP. destruct (ran_alone None NP) as [n Hn]. exists n. intros sched LE g.
+    destruct (Hn sched LE) as [A B]. fold g in A, B.
+    destruct (copy_prog_is_do_copy root c s0 r dst rec ow tmp qs qd Hs E1 E2 TF) as [R1 R2].
+    rewrite R1 in A. split; [exact A|]. intro q.
+    rewrite <- R2. unfold abs. rewrite (app_assoc root c q). rewrite (geto_app (snd g)), B, <- geto_app. reflexivity.
+  Qed.
+
+  (** A COPY that fails at any entry of its walk — also when other clients ran between
+      its steps — answers 500 and leaves its own collection exactly as it was; the
+      other clients never see it at all ([clients_stalled_harmless]). *)
+  Theorem copy_fault_harmless k ss n ds cr :
+    nth_error progs i = Some (copy_prog c tmp (Some k) r dst rec ow) ->
+    copy_move_checks root s0 (rpath r) dst ow = GOk (ss, n, ds, cr) ->
+    k < List.length (walk_entries n rec) ->
+    exists m, forall sched, m <= count_occ Nat.eq_dec sched i ->
+      let g := trun (act_step root) (progs, s0) sched in
+      nth_error (fst g) i = Some (TRet fail500) /\
+      geto (snd g) (root ++ c) = geto s0 (root ++ c).
+  Proof.
+    intros NP Ec L. destruct (ran_alone (Some k) NP) as [m Hm]. exists m. intros sched LE g.
+    destruct (Hm sched LE) as [A B]. fold g in A, B.
+    rewrite (copy_fault_harmless_alone root c s0 r dst rec ow tmp qs qd k ss n ds cr Hs E1 E2 TF Ec L) in A, B.
+    auto.
+  Qed.
+End CopyConcurrent.
 
 (** * 5. The upload section of a PUT as the sequence of its OS calls *)
 Section UploadProg.
